@@ -49,7 +49,28 @@ pub fn mmode(sh: &Shared, m: &Mode) -> Result<MMode, OpErr> {
         Mode::Derive { ctx } => MMode::Derive(ctx_string(sh, *ctx)?.into_bytes()),
         Mode::ContextKey { ctx } => {
             let s = ctx_string(sh, *ctx)?;
-            MMode::ContextKey(sched::quiet(|| blake3::hazmat::hash_derive_key_context(&s)))
+            // The context key depends on the bytes of the context only: not on where the string lives nor on what
+            // this thread derived before. Contexts are formatted into one reused buffer per thread, and a different
+            // context of the same length is derived at the same address just before the real one.
+            thread_local! {
+                static CTXBUF: std::cell::RefCell<String> = std::cell::RefCell::new(String::with_capacity(4096));
+            }
+            let decoy: String = s.chars().map(|c| match c { 'a' => 'B', 'B' => 'a', '0' => '-', '-' => '0', ':' => '~', '~' => ':', o => o }).collect();
+            let (kd, k) = sched::quiet(|| {
+                CTXBUF.with(|b| {
+                    let mut b = b.borrow_mut();
+                    b.clear();
+                    b.push_str(&decoy);
+                    let kd = blake3::hazmat::hash_derive_key_context(&b);
+                    b.clear();
+                    b.push_str(&s);
+                    (kd, blake3::hazmat::hash_derive_key_context(&b))
+                })
+            });
+            if k != model::context_key(s.as_bytes()) || kd != model::context_key(decoy.as_bytes()) {
+                return viol("result-mismatch", format!("hash_derive_key_context({:?}) is not the specified context key (derived right after {:?} at the same address)", s, decoy));
+            }
+            MMode::ContextKey(k)
         }
     })
 }
@@ -368,6 +389,27 @@ fn rayon_pool(width: u8) -> Arc<rayon_core::ThreadPool> {
             )
         })
         .clone()
+}
+
+/// one-thread rayon pool per simulated task: the task lends its scheduler identity to the worker for the duration of
+/// a call, so that what happens inside update_mmap_rayon interleaves with the other tasks deterministically
+fn adopted_pool(task: usize) -> Arc<rayon_core::ThreadPool> {
+    use std::collections::HashMap;
+    use std::sync::{Mutex, OnceLock};
+    static POOLS: OnceLock<Mutex<HashMap<usize, Arc<rayon_core::ThreadPool>>>> = OnceLock::new();
+    let mut g = POOLS.get_or_init(|| Mutex::new(HashMap::new())).lock().unwrap();
+    g.entry(task)
+        .or_insert_with(|| Arc::new(rayon_core::ThreadPoolBuilder::new().num_threads(1).stack_size(TASK_STACK).build().expect("rayon pool")))
+        .clone()
+}
+
+/// the application's own global rayon pool, configured before the library is first used (as b3sum --num-threads
+/// does); Rayon { width: 0 } runs on it
+pub fn ensure_global_pool() {
+    static ONCE: std::sync::Once = std::sync::Once::new();
+    ONCE.call_once(|| {
+        let _ = rayon_core::ThreadPoolBuilder::new().num_threads(3).stack_size(TASK_STACK).build_global();
+    });
 }
 
 fn absorb_domain_ok(hs: &HSlot, len: usize) -> bool {
@@ -981,7 +1023,7 @@ pub fn do_op(sh: &Arc<Shared>, local: &mut TaskLocal, op: &Op) -> OpResult {
         | Op::ParseLine { .. }
         | Op::FileKinds { .. }
         | Op::SysFault { .. } => crate::cli::do_cli(sh, local, op),
-        Op::CInit { .. } | Op::CUpdate { .. } | Op::CFinalize { .. } | Op::CReset { .. } | Op::CCopy { .. } | Op::CSetMask { .. } => {
+        Op::CInit { .. } | Op::CUpdate { .. } | Op::CFinalize { .. } | Op::CFinalizeHuge { .. } | Op::CReset { .. } | Op::CCopy { .. } | Op::CSetMask { .. } => {
             crate::cnode::do_cop(sh, local, op)
         }
     }
@@ -1014,6 +1056,7 @@ fn via_tag(v: &AbsorbVia) -> u64 {
         AbsorbVia::Mmap => 8,
         AbsorbVia::MmapRayon => 9,
         AbsorbVia::ReaderFile => 10,
+        AbsorbVia::SharedFile { how } => 14 + *how as u64 % 3,
         AbsorbVia::TraitUpdate => 11,
         AbsorbVia::MacUpdate => 12,
         AbsorbVia::DigestUpdate => 13,
@@ -1074,6 +1117,16 @@ fn absorb(sh: &Arc<Shared>, hs: &mut HSlot, bytes: &[u8], via: &AbsorbVia) -> Op
             all(hs);
             Ok(3)
         }
+        AbsorbVia::Rayon { width: 0 } => {
+            // called from outside any pool: the joins are injected into the global pool
+            ensure_global_pool();
+            let level = current_level();
+            rayon_core::broadcast(|_| blake3::verif::set_platform(platform_of(level)));
+            hs.h.update_rayon(bytes);
+            all(hs);
+            sh.probe("real_rayon_global_pool");
+            Ok(4)
+        }
         AbsorbVia::Rayon { width } => {
             let pool = rayon_pool(*width);
             let h = &mut hs.h;
@@ -1116,6 +1169,47 @@ fn absorb(sh: &Arc<Shared>, hs: &mut HSlot, bytes: &[u8], via: &AbsorbVia) -> Op
                 sh.probe("reader_hard_error_surfaced");
             }
             judge_reader(res, &rd, reports_total)
+        }
+        AbsorbVia::SharedFile { how } => {
+            let p = sh.scratch_dir()?.join(format!("shared-{:016x}-{}", Fnv::of(bytes), bytes.len()));
+            if !p.exists() {
+                std::fs::write(&p, bytes).map_err(|e| OpErr::Harness(format!("shared file: {e}")))?;
+            }
+            let res: std::io::Result<()> = match how % 3 {
+                0 => hs.h.update_mmap(&p).map(|_| ()),
+                1 => {
+                    let ctx = sched::current();
+                    let pool = adopted_pool(ctx.as_ref().map_or(0, |c| c.1));
+                    let level = current_level();
+                    let h = &mut hs.h;
+                    pool.install(|| {
+                        struct Unadopt;
+                        impl Drop for Unadopt {
+                            fn drop(&mut self) {
+                                sched::set_ctx(None);
+                            }
+                        }
+                        blake3::verif::set_platform(platform_of(level));
+                        blake3::verif::set_yield_hook(Some(sched::hook_yield));
+                        if let Some((s, id)) = ctx.clone() {
+                            sched::set_ctx(Some(sched::TaskCtx { sched: s, id, quiet: 0 }));
+                        }
+                        let _u = Unadopt;
+                        h.update_mmap_rayon(&p).map(|_| ())
+                    })
+                }
+                _ => std::fs::File::open(&p).and_then(|f| hs.h.update_reader(f).map(|_| ())),
+            };
+            if let Err(e) = res {
+                return viol("result-mismatch", format!("{:?} of a regular {}-byte file (shared with other tasks) failed: {e}", via, bytes.len()));
+            }
+            sh.probe(match how % 3 {
+                0 => "shared_file_update_mmap",
+                1 => "shared_file_update_mmap_rayon_adopted_pool",
+                _ => "shared_file_update_reader",
+            });
+            all(hs);
+            Ok(7)
         }
         AbsorbVia::Mmap | AbsorbVia::MmapRayon | AbsorbVia::ReaderFile => {
             let p = sh.scratch_file(bytes)?;
